@@ -3,14 +3,16 @@ use crate::engine::PropertyDef;
 
 pub mod c04;
 pub mod c09;
+pub mod c14;
 pub mod c18;
 pub mod c19;
+pub mod c25;
 pub mod c27;
 pub mod c29;
 pub mod util;
 
 pub fn all() -> Vec<PropertyDef> {
-    vec![c04::def(), c09::def(), c18::def(), c19::def(), c27::def(), c29::def()]
+    vec![c04::def(), c09::def(), c14::def(), c18::def(), c19::def(), c25::def(), c27::def(), c29::def()]
 }
 
 /// Drivers that run inside an isolated worker process (`vp worker`).
